@@ -500,14 +500,26 @@ func cmdFaults(args []string) {
 				}
 				x = append(x, 1, 2, 3)
 				bombs++
-				var ms0, ms1 runtime.MemStats
-				runtime.ReadMemStats(&ms0)
-				tryUnmarshal(mt, x, "lengthbomb", emit)
-				runtime.ReadMemStats(&ms1)
-				if delta := ms1.TotalAlloc - ms0.TotalAlloc; delta > 1<<20 {
+				// bytes allocated by the generated Unmarshal alone (not by the reference decode or the
+				// harness), smallest of up to three measurements: TotalAlloc is process-wide, so a
+				// single reading can include allocations of the runtime's background work
+				delta := ^uint64(0)
+				for rep := 0; rep < 3 && delta > 1<<20; rep++ {
+					m := mt.New().Interface()
+					var ms0, ms1 runtime.MemStats
+					runtime.ReadMemStats(&ms0)
+					bounded(func() { _ = proto.Unmarshal(x, m) })
+					runtime.ReadMemStats(&ms1)
+					if d := ms1.TotalAlloc - ms0.TotalAlloc; d < delta {
+						delta = d
+					}
+				}
+				if delta > 1<<20 {
 					emit(parseVerdict{Kind: "alloc", Type: *typ, In: proj.Bytes(x), Note: fmt.Sprintf("allocated %d bytes for a %d byte input", delta, len(x)), Fault: "lengthbomb"})
 					stop[variant] = true
+					continue
 				}
+				tryUnmarshal(mt, x, "lengthbomb", emit)
 			}
 		}
 	}
